@@ -11,13 +11,14 @@ RECURSIVE Pow(_,_)
 Pow(X, n) == IF n = 0 THEN {""} ELSE Cat(X, Pow(X, n - 1))
 Digits == {"0","1","2","3","4","5","6","7","8","9"}
 Lower == {"a","b","c","d","e","f","g","h","i","j","k","l","m","n","o","p","q","r","s","t","u","v","w","x","y","z"}
-Order == <<" ","*","+",",","-",".","/","0","1","2","3","4","5","6","7","8","9","]","a","b","c","d">>   \* enough of ASCII order for the ranges used
+Order == <<" ","$","*","+",",","-",".","/","0","1","2","3","4","5","6","7","8","9","[","]","a","b","c","d">>   \* enough of ASCII order for the ranges used
 Idx(c) == CHOOSE i \in DOMAIN Order : Order[i] = c
 Range(lo, hi) == { Order[i] : i \in Idx(lo)..Idx(hi) }
 ShortSet(k) == CASE k = "d" -> Digits [] k = "s" -> {" "} [] k = "w" -> Digits \cup Lower \cup {"_"}
 \* set items: [k |-> "c", c |-> ch] | [k |-> "r", lo, hi] | [k |-> "s", s |-> "d"|"s"|"w"]
-ItemChars(it) == CASE it.k = "c" -> {it.c} [] it.k = "r" -> Range(it.lo, it.hi) [] it.k = "s" -> ShortSet(it.s)
+ItemChars(it) == CASE it.k \in {"c", "raw"} -> {it.c} [] it.k = "r" -> Range(it.lo, it.hi) [] it.k = "s" -> ShortSet(it.s)
 ItemText(it) == CASE it.k = "c" -> (IF it.c \in {"]", "\\", "^", "-"} THEN "\\" \o it.c ELSE it.c)
+                  [] it.k = "raw" -> it.c
                   [] it.k = "r" -> it.lo \o "-" \o it.hi
                   [] it.k = "s" -> "\\" \o it.s
 RECURSIVE JoinItems(_)
@@ -28,6 +29,7 @@ IsAtom(a) == a.t \in {"lit", "dot", "set", "short"}
 Wrap(a) == IF IsAtom(a) THEN Render(a) ELSE "(" \o Render(a) \o ")"
 Render(a) == CASE a.t = "lit" -> (IF a.c \in Meta THEN "\\" \o a.c ELSE a.c)
                [] a.t = "dot" -> "."
+               [] a.t = "empty" -> ""
                [] a.t = "short" -> "\\" \o a.s
                [] a.t = "set" -> "[" \o (IF a.neg THEN "^" ELSE "") \o JoinItems(a.items) \o "]"
                [] a.t = "star" -> Wrap(a.x) \o "*"
@@ -39,6 +41,7 @@ Render(a) == CASE a.t = "lit" -> (IF a.c \in Meta THEN "\\" \o a.c ELSE a.c)
                [] a.t = "alt" -> Render(a.l) \o "|" \o Render(a.r)
 Den(a) == CASE a.t = "lit" -> {a.c} \cap Sigma
             [] a.t = "dot" -> Sigma
+            [] a.t = "empty" -> {""}
             [] a.t = "short" -> ShortSet(a.s) \cap Sigma
             [] a.t = "set" -> LET cs == UNION { ItemChars(a.items[i]) : i \in DOMAIN a.items } IN IF a.neg THEN Sigma \ cs ELSE Sigma \cap cs
             [] a.t = "star" -> Star(Den(a.x))
